@@ -342,9 +342,10 @@ fn check(c: &CliCase) -> CaseReport {
         }
     }
     // the printed text is a function of the query and the options, not of the locale variables of the environment
+    // nor of the log level (log output goes to stderr)
     if q.len() % 5 == 0 {
         if let Ok((want, _, _)) = expected_stdout(cli_db(), q, false) {
-            const LOCALES: [(&str, &str); 5] = [("LC_ALL", "en_US.ISO-8859-1"), ("LC_ALL", "C"), ("LANG", "de_DE.ISO-8859-15@euro"), ("LC_CTYPE", "ja_JP.eucJP"), ("LC_ALL", "POSIX")];
+            const LOCALES: [(&str, &str); 7] = [("LC_ALL", "en_US.ISO-8859-1"), ("LC_ALL", "C"), ("LANG", "de_DE.ISO-8859-15@euro"), ("RUST_LOG", "trace"), ("LC_CTYPE", "ja_JP.eucJP"), ("LC_ALL", "POSIX"), ("RUST_LOG", "anything=trace")];
             let (k, v) = LOCALES[(q.len() / 5) % LOCALES.len()];
             let mut cmd = Command::new(&e.any);
             cmd.env("XDG_DATA_HOME", &e.xdg).env("TERM", "dumb").env("NO_COLOR", "1").env_remove("RUST_LOG").env_remove("RUST_BACKTRACE");
@@ -356,7 +357,7 @@ fn check(c: &CliCase) -> CaseReport {
             if let Ok(outp) = outp {
                 let got = String::from_utf8_lossy(&outp.stdout).to_string();
                 if !outp.status.success() || got != want {
-                    return CaseReport::fail(q, "locale:stdout-differs", json!({"query": q, "environment": format!("{}={}", k, v), "stdout": got, "expected": want}));
+                    return CaseReport::fail(q, if k == "RUST_LOG" { "log-level:stdout-differs" } else { "locale:stdout-differs" }, json!({"query": q, "environment": format!("{}={}", k, v), "stdout": got, "expected": want}));
                 }
                 all_classes.push("under-another-locale");
             }
@@ -514,7 +515,7 @@ fn queries() -> impl Strategy<Value = CliCase> {
 }
 
 pub fn run_check(ctx: &Ctx) {
-    ctx.set_rule("queries from the other generators (numeric trees, commensurable/incommensurable pairs, quantity products, fact expressions, multi-result queries, single pluralisable units with value 1 and not 1, runs of two to six results that carry one and the same unit with values one and not one next to each other and failures in between, denominator-only units, error inputs, printable-ASCII noise) are run through the real `any` binary (compiled from /repo/src/bin/any.rs) in default and --exact mode under a private XDG_DATA_HOME; stdout must equal, byte for byte, the text the harness prints from the library's results (numerator[/denominator]; 12-digit rendering that also satisfies C08's oracle; space iff the unit has a numerator; pluralised iff value != 1; codespan diagnostics for errors; later results still printed) and the exit status must be 0; non-trivial = output has a unit, several results or an error block; distinct by query text");
+    ctx.set_rule("queries from the other generators (numeric trees, commensurable/incommensurable pairs, quantity products, fact expressions, multi-result queries, single pluralisable units with value 1 and not 1, runs of two to six results that carry one and the same unit with values one and not one next to each other and failures in between, denominator-only units, error inputs, printable-ASCII noise) are run through the real `any` binary (compiled from /repo/src/bin/any.rs) in default and --exact mode under a private XDG_DATA_HOME; stdout must equal, byte for byte, the text the harness prints from the library's results (numerator[/denominator]; 12-digit rendering that also satisfies C08's oracle; space iff the unit has a numerator; pluralised iff value != 1; codespan diagnostics for errors; later results still printed) and the exit status must be 0; non-trivial = output has a unit, several results or an error block; distinct by query text; one query in five also runs under another locale or with RUST_LOG=trace (stdout must not change)");
     ctx.assume("the binary is compiled from the unmodified source file /repo/src/bin/any.rs as a [[bin]] of the harness crate, linked against the same build of the library");
     let corpus: Vec<(String, CliCase)> = load_corpus("C19");
     let cases: Vec<CliCase> = corpus.into_iter().map(|c| c.1).collect();
